@@ -192,7 +192,7 @@ def make_pulse_sequence(transform, values, duration, rf, offset=None):
         for alpha, phi, dur in zip(alphas, phis, durations)
     ]
 
-    if offset is not None and np.any(offset):  # phase offset
+    if offset is not None and (np.ndim(offset) > 0 or offset != 0):  # phase offset (an array keeps its batch axis)
         offset = np.asarray(offset) if np.ndim(offset) else offset
         # sequence = [transform(0, -offset)] + sequence + [transform(0, offset)]
         sequence = [transition.Phi(-offset)] + sequence + [transition.Phi(offset)]
